@@ -12,6 +12,26 @@ def _run_dill_encoded(payload):
     return res
 
 
+class _TaskFailure:
+    """
+    Returned by a worker in place of a result when the task raised an exception
+    """
+
+    def __init__(self, pickled_exception, description):
+        self.pickled_exception = pickled_exception
+        self.description = description
+
+    def reraise(self):
+        if self.pickled_exception is not None:
+            try:
+                exception = dill.loads(self.pickled_exception)
+            except Exception:
+                exception = None
+            if isinstance(exception, BaseException):
+                raise exception
+        raise RuntimeError(f"Task failed in ParallelMap worker: {self.description}")
+
+
 class ParallelMap:
     """
     Apply functions in parallel, using dill for pickling, inspired by example here
@@ -69,9 +89,21 @@ class ParallelMap:
         f_Z = equilibrium.f_Z
         while True:
             i, function, args, kwargs = task_queue.get()
-            result = function(
-                *args, equilibrium=equilibrium, psi=psi, f_R=f_R, f_Z=f_Z, **kwargs
-            )
+            try:
+                result = function(
+                    *args, equilibrium=equilibrium, psi=psi, f_R=f_R, f_Z=f_Z, **kwargs
+                )
+            except Exception as e:
+                # Pass the failure back to the caller, which re-raises it. Without this
+                # the worker dies and the caller waits for the result forever. The
+                # exception is sent with dill, and as a string in case it cannot be
+                # pickled.
+                try:
+                    payload = dill.dumps(e)
+                except Exception:
+                    payload = None
+                result_queue.put((i, _TaskFailure(payload, repr(e))))
+                continue
             result_queue.put((i, result))
 
     def __call__(self, function, args_list, **kwargs):
@@ -98,6 +130,13 @@ class ParallelMap:
         for count in range(n_tasks):
             i, this_result = self.result_queue.get()
             result[i] = this_result
+
+        # If any task failed, raise the exception of the first one (in task order), as
+        # a serial loop would. All results have been collected, so the queues are
+        # empty and this ParallelMap can be used again.
+        for this_result in result:
+            if isinstance(this_result, _TaskFailure):
+                this_result.reraise()
 
         if not self.task_queue.empty():
             raise ValueError("Some tasks not finished")
